@@ -57,6 +57,25 @@ UNIT = Unit(
                f"  forall|j: int| 0 <= j < {mt.group(1)} ==> pat_checked(arms@[j].pat, expr_ty, (#[trigger] arms_tast@[j]).pat) && inferred(arms@[j].body, arms_tast@[j].body) "
                f"&& self.recorded().contains(Constraint::TypeEqual(ty_of_expr(arms_tast@[j].body), arm_ty)),\n decreases arms.len() - {mt.group(1)},") if mt else None)(
                re.search(r"while\s+(__fk\d+)\s*<\s*arms\.len\(\)", header))),
+        whole("check_pat_wild",
+              "ensures r matches Pat::PWild { ty: t } && final(self).recorded().contains(Constraint::TypeEqual(t, *ty)),",
+              "a wildcard pattern has the scrutinee's type"),
+        Fn(file=C, name="check_pat_var", container="Typer", ret="r", rewrites=[VC, ("self.hir_table.local_ident_name(name)", "self.local_ident_name(name)", "*"), (re.compile(r"self\.results\.record_"), "self.record_", "*")],
+           obligation="a variable pattern binds the variable at the type of the value it is matched against",
+           contract="ensures r matches Pat::PVar { name: _, ty: t, astptr: _ } && t == *ty && final(local_env).bound(name) == Some(*ty),"),
+        Fn(file="crates/compiler/src/tast.rs", name="get_ty", container="Pat", ret="r", rewrites=[VC], contract="ensures r == pat_ty(*self),", obligation="get_ty returns the carried type"),
+        Fn(file=C, name="check_pat_tuple", container="Typer", ret="r", attrs="#[verifier::loop_isolation(false)]",
+           rules=["attrs", "fmtmsg", ("strip", "tast::"), ("strip", "hir::"), ("strip", "common_defs::"), ("strip", "super::util::"), "for_zip"],
+           pre_rewrites=[("pats: &[hir::PatId]", "pats: &Vec<PatId>", 1), ("(0..pats.len()).map(|_| self.fresh_ty_var()).collect()", "self.fresh_ty_vars(pats.len())", 1),
+                         ("self.check_pat(", "self.check_sub_pat(", "*"),
+                         ("let mut pats_tast = Vec::new();", "let mut pats_tast: Vec<Pat> = Vec::new();", 1), ("let mut pat_typs = Vec::new();", "let mut pat_typs: Vec<Ty> = Vec::new();", 1)],
+           rewrites=[VC, PUSHED],
+           obligation="a tuple pattern: item i is checked against component i of the scrutinee's tuple type, in order; the pattern's type lists the items' types and is equated with the scrutinee's",
+           contract="ensures tuple_pat_ok(pats@, *ty, r, final(self).recorded()),",
+           loop_fn=lambda k, header, kw: (lambda mt: (f"invariant {mt.group(1)} <= pats.len(), {mt.group(1)} <= expected_elem_tys.len(), pats_tast@.len() == {mt.group(1)}, pat_typs@.len() == {mt.group(1)},\n"
+               f"  forall|j: int| 0 <= j < {mt.group(1)} ==> sub_elab(#[trigger] pats@[j], pats_tast@[j]),\n"
+               f"  forall|j: int| 0 <= j < {mt.group(1)} ==> #[trigger] pat_typs@[j] == pat_ty(pats_tast@[j]),\n decreases pats.len() - {mt.group(1)},") if mt else None)(
+               re.search(r"while\s+(__zk\d+)\s*<\s*pats\.len\(\)", header))),
         whole("infer_go_expr",
               "ensures r matches Expr::EGo { expr: x, ty } && ty is TUnit && inferred(expr, *x)\n"
               "  && exists|ft: Ty| #[trigger] final(self).recorded().contains(Constraint::TypeEqual(expr_ty(*x), ft)) && (ft matches Ty::TFunc { params, ret_ty } && params@.len() == 0 && *ret_ty is TUnit),",
